@@ -44,6 +44,9 @@ type TaskSpec struct {
 	// what a ledger does when resolving one account involves executing another script.
 	// "Re-entrant" taken literally: the inner run returns the solo result, and so does the outer.
 	Nested bool `json:"nested,omitempty"`
+	// NestedNilFlags: the inner run of a Nested task is made without any flag map (nil), whatever
+	// the outer run's flags are, and compared with a solo run made the same way
+	NestedNilFlags bool `json:"nested_nil_flags,omitempty"`
 	// PreCancel: this task's context is already cancelled when Run is called (the store, like
 	// most in-memory stores, does not look at it). Whatever Run makes of a cancelled context it
 	// must make of it every time.
@@ -343,7 +346,11 @@ func Execute(c Case, keepTrace bool, ch chooser) (res Result) {
 				inner.Yield = s.yield
 				tr.Add("task %d: its store, asked %s, runs the script itself before answering", i, site)
 				// the inner run is started with the context the store was handed, as a store would
-				slots[i].nested = append(slots[i].nested, exec.Run(sctx, pr, copyVars(t.Vars), inner, flagsMap(t)))
+				nf := flagsMap(t)
+				if t.NestedNilFlags {
+					nf = nil
+				}
+				slots[i].nested = append(slots[i].nested, exec.Run(sctx, pr, copyVars(t.Vars), inner, nf))
 				res.Probes["nested_runs_inside_a_store_call"]++
 				depth--
 			}
@@ -445,10 +452,14 @@ func Execute(c Case, keepTrace bool, ch chooser) (res Result) {
 				return res
 			}
 		}
+		nbase := base[i]
+		if t.NestedNilFlags && len(slots[i].nested) > 0 {
+			nbase = c.solo(textOf(t), t, nil)
+		}
 		for r, o := range slots[i].nested {
 			tr.Add("task %d nested run %d: %s", i, r, o.Canon())
-			if o.Canon() != base[i].Canon() {
-				res.Violation = viol("re-entrancy", "nested-run-differs-from-solo", fmt.Sprintf("task %d: its store ran the same parsed script with the same inputs while the outer run was waiting for the answer; that inner run returned %s ; alone it returns %s", i, core.Truncate(o.Canon(), 500), core.Truncate(base[i].Canon(), 500)))
+			if o.Canon() != nbase.Canon() {
+				res.Violation = viol("re-entrancy", "nested-run-differs-from-solo", fmt.Sprintf("task %d: its store ran the same parsed script with the same inputs while the outer run was waiting for the answer; that inner run returned %s ; alone it returns %s", i, core.Truncate(o.Canon(), 500), core.Truncate(nbase.Canon(), 500)))
 				return res
 			}
 		}
@@ -657,6 +668,7 @@ func genCase(r *rand.Rand) (Case, chooser) {
 		i := r.IntN(len(c.Tasks))
 		if len(c.Tasks[i].Faults) == 0 && !c.Tasks[i].Noise {
 			c.Tasks[i].Nested = true
+			c.Tasks[i].NestedNilFlags = r.IntN(2) == 0
 		}
 	}
 	// a share of cases runs an ill-formed script (a labelled defect of the C12 engine): errors
